@@ -408,14 +408,15 @@ Proof.
       assert (L2 : (len (48 :: x :: run1) =? 0) = false).
       { rewrite !len_cons. pose proof (len_nonneg run1). destruct (Z.eqb_spec (len run1 + 1 + 1) 0); [lia | reflexivity]. }
       rewrite L2. cbn [negb Z.eqb Pos.eqb andb skipn].
+      pose proof (Frac 16 eq_refl eq_refl) as Fr. cbn [Z.eqb Pos.eqb andb] in Fr.
       destruct (Z.eqb_spec (len run1) 0) as [E0|E0].
-      * rewrite (N1 (Lz _ E0)) in *. cbn [rbind]. rewrite (Frac 16 eq_refl eq_refl). cbn [rbind].
+      * rewrite (N1 (Lz _ E0)) in *. cbn [rbind]. rewrite Fr. cbn [rbind].
         rewrite (Lz _ E0). cbn [len length Z.of_nat count_us filter]. 
         destruct (Fin 0 eq_refl) as (sf & ex & E & V). cbn [len length Z.of_nat] in E. rewrite Z.mul_0_r in E.
         cbn [Z.mul Z.sub Z.add]. eexists _, _. split; [exact E | exact V].
       * assert (Hids : ids <> []) by (destruct O1 as [->|]; [cbn in E0; lia | assumption]).
         rewrite (parse_unsigned_run 16 run1 ids eq_refl F1 Bd1 Hids). cbn [rbind].
-        rewrite (Frac 16 eq_refl eq_refl). cbn [rbind]. rewrite C1.
+        rewrite Fr. cbn [rbind]. rewrite C1.
         replace (4 * (len run1 - (len run1 - len ids))) with (per * len ids) by (unfold per; lia).
         apply (Fin _ eq_refl).
     + subst hex pre. cbn [app].
